@@ -33,8 +33,10 @@ def run(ck, prog):
         "(R05.3) push_file/pop_file likewise; (R05.4) the dispatching matches over Statement and BodyItem "
         "reach the indexer of every variant; (R05.5) every Variable::new flows into an add_variable; "
         "(R05.6) lookup inside one scope tests variables before fields before template arguments in the "
-        "same scope iteration. What a name *should* resolve to (inheritance, cross-kind shadowing) is "
-        "not decided.")
+        "same scope iteration; the push/pop primitives themselves are a stack (push = one Vec::push of the "
+        "argument, pop = one Vec::pop, the current file = last()); (R05.9) the indexer descends into an "
+        "included file only behind a visited-set test, so every file is indexed once. What a name *should* "
+        "resolve to (inheritance, cross-kind shadowing) is not decided.")
     ck.trusted = ["rowan: typed accessors select children by kind", "parser abstract interpretation (must-child facts)"]
     ck.rule("R05.1", "Scopes::push/pop balanced on every feasible path of every function")
     ck.rule("R05.2", "an accessor of optional syntax followed by `?` does not bypass later indexing or scope operations")
@@ -89,6 +91,11 @@ def run(ck, prog):
     ck.floor("R05.3", "push_file sites", n_pushfile, 1)
     stack_primitives(ck, prog, "R05.3", PUSH_FILE, POP_FILE, "ide::index::context::IndexCtx::<'a>::current_file_id")
     stack_primitives(ck, prog, "R05.1", PUSH, POP, None)
+    # a file reached along two include paths is indexed once: otherwise each of its declarations becomes two symbols and
+    # find-references returns only the uses bound to one of them
+    from .c16 import descent_guard
+    ck.rule("R05.9", "every file is indexed once (include descent guarded by a visited set)")
+    descent_guard(ck, prog, callgraph(prog), "R05.9")
     ck.extra["option_tests_seen"] = n_tests
     ck.extra["none_edges_pruned"] = pruned
 
